@@ -109,6 +109,27 @@ def make_directive_only_free_var():
   return loop
 
 
+def make_directive_only_free_var_sorted_first():
+  # the free variable that conversion removes (`aa`) sorts BEFORE the ones that stay
+  import malt as aa
+  limit = 4
+  step = 2
+
+  def loop(a):
+    s = 0
+    for i in range(limit):
+      aa.experimental.set_loop_options(maximum_iterations=9)
+      if i > a:
+        s = s + step
+    return (s, limit, step)
+
+  def set_limit(v):
+    nonlocal limit
+    limit = v
+
+  return loop, set_limit
+
+
 @counting_deco
 def decorated(a, b=2):
   if a > b:
